@@ -879,6 +879,7 @@ package proxy
 // entry only while it is still the caller's (defect D14, fixed: it was unconditional).
 // ---------------------------------------------------------------------------------------------
 //@ guards intraProxyManager.streamsMu: *peers
+//@   lockinv forall p string :: { p in self.peers } p in self.peers ==> self.peers[p] != nil
 //@ contract (*intraProxyManager).UnregisterSender
 //@   props C08
 //@   deletepre senders: @only_own_sender: !$present || $map[$key] == sender
@@ -926,3 +927,26 @@ package proxy
 //@   props C08
 //@   requires sm.localReceiverCancelFuncs != nil && sm.localReceiverCancelOwner != nil
 //@   ensures @newest_registered: shardID in sm.localReceiverCancelOwner && sm.localReceiverCancelOwner[shardID] == owner && shardID in sm.localReceiverCancelFuncs
+
+// ---------------------------------------------------------------------------------------------
+// C09: desired-stream reconciliation. Receivers are ensured only for desired (local shard, remote shard) pairs
+// and only streams that are NOT in the desired sets are closed.
+// ---------------------------------------------------------------------------------------------
+//@ extern quiet (ShardManager).GetLocalShards
+//@ extern quiet (ShardManager).GetRemoteShardsForPeer
+//@ extern (*intraProxyManager).EnsureReceiverForPeerShard@(*intraProxyManager).ReconcilePeerStreams(m2, peer, target, source)
+//@   trusted frame: touches only the manager's peer table (and the network)
+//@   assigns contents(m2.peers)
+//@ extern (*intraProxyManager).closePeerShardLocked@(*intraProxyManager).ReconcilePeerStreams(m2, peer, ps, key)
+//@   trusted frame: touches only the given peer's tables
+//@   assigns contents(ps)
+//@ contract (*intraProxyManager).ReconcilePeerStreams
+//@   props C09
+//@   requires m.shardManager != nil && m.loggers != nil
+//@   callpre EnsureReceiverForPeerShard: @only_desired: key in desiredReceivers && $peerNodeName == desiredReceivers[key] && $targetShard == key.targetShard && $sourceShard == key.sourceShard
+//@   callpre closePeerShardLocked.1: @only_undesired_receivers: !($key in desiredReceivers)
+//@   callpre closePeerShardLocked.2: @only_undesired_senders: !($key in desiredSenders)
+//@   loop 8 invariant forall j int :: { receiversToClose[j] } 0 <= j && j < len(receiversToClose) ==> !(receiversToClose[j] in desiredReceivers)
+//@   loop 9 invariant forall j int :: { receiversToClose[j] } 0 <= j && j < len(receiversToClose) ==> !(receiversToClose[j] in desiredReceivers)
+//@   loop 10 invariant forall j int :: { sendersToClose[j] } 0 <= j && j < len(sendersToClose) ==> !(sendersToClose[j] in desiredSenders)
+//@   loop 11 invariant forall j int :: { sendersToClose[j] } 0 <= j && j < len(sendersToClose) ==> !(sendersToClose[j] in desiredSenders)
